@@ -6,6 +6,7 @@ import (
 
 //assume: C19.csrf: the state string of a callback is arbitrary attacker input of any length
 
+// CSRF cookie names from arbitrary state strings: never a crash, at most 8 characters of the state
 // verif: unwind=6 strlen=12 also=C03
 func vh_C19_csrf_names() {
 	state := ndString("state")
